@@ -123,6 +123,8 @@
     (ival (schedules.created_on r))))
 ; next occurrence of a cron expression strictly after t (cron library, assumed)
 (declare-fun cronnext (Str Int) Int)
+; the same in nanoseconds, for an arbitrary reference instant (used only inside util.Next)
+(declare-fun cronnextns (Str Int) Int)
 (define-fun seq.createschedule.status.exists ((pre Row.schedules) (ik OptStr)) Int
   (ite (key.match (schedules.idempotency_key pre) ik) 20000 40901))
 
